@@ -51,6 +51,16 @@ def _has_id_intersection(parent: 'Task', children: Iterable['Task']):
     return len(parent_tree_ids.intersection(new_task_ids)) > 0
 
 
+def _has_links_with_ancestors(task: 'Task', new_parent: 'Task') -> bool:
+    """True if task or any of its children depends on (or is a dependency of) new_parent or its parents"""
+    ancestors = [new_parent] + [t for t in new_parent.all_parents]
+    for t in _collect_subtree(task):
+        for linked in list(t.predecessors) + list(t.successors):
+            if any(linked is a for a in ancestors):
+                return True
+    return False
+
+
 def _check_not_none(obj: Any, name: str):
     if obj is None:
         raise RuntimeError(f"{name} is None")
@@ -727,6 +737,8 @@ class Task:
             if parent in self.all_children:
                 raise RuntimeError(f"Task {parent.id} is a child of task {self.id}. Can't make child "
                                    f"a parent of its parent")
+            if _has_links_with_ancestors(self, parent):
+                raise RuntimeError(f"Task {self.id} has predecessors or successors among its new parents")
 
         if self.__parent is not None and self in self.__parent.__children:
             self.__parent.__children.remove(self)
@@ -792,6 +804,8 @@ class Task:
                 raise RuntimeError(f"Task {self.id} can't be a child of itself")
             if self in ch.all_children:
                 raise RuntimeError(f"Task {self.id} is a child of {ch.id}. Can't make child a parent of its parent")
+            if _has_links_with_ancestors(ch, self):
+                raise RuntimeError(f"Task {ch.id} has predecessors or successors among its new parents")
 
         for v in self.__children:
             v.__parent = None
